@@ -150,3 +150,141 @@ func openUpdatePrograms() []*progCase {
 	}
 	return out
 }
+
+// ---- a goal term called more than once under different bindings (C01) -----------------------
+// One goal term reaches call/1 (call/N, \+, findall/3, a variable goal) through a clause
+// variable and is executed again after backtracking has given its inner variable another
+// value: what is executed must be the goal as it is bound now.
+
+func metaCallPrograms() []*progCase {
+	x, g := gv(0), gv(1)
+	lib := []*G{
+		gc("pick", gi(1)), gc("pick", gi(2)), gc("pick", gi(3)),
+		gc("q", gi(2)), gc("q", gi(3)),
+		gc("r", gi(1), ga("a")), gc("r", gi(3), ga("c")),
+	}
+	bodies := []*G{
+		gc("call", g),
+		g,
+		gc("call", g, ga("c")),
+		gc(`\+`, gc(`\+`, g)),
+		gc("findall", x, g, glist([]*G{gv(-1)}, nil)),
+		gc(";", g, ga("fail")),
+		gc("once", g),
+		gc("call", gc(",", g, ga("true"))),
+	}
+	var out []*progCase
+	for bi, b := range bodies {
+		for order := 0; order < 2; order++ {
+			prog := &program{}
+			prog.clauses = append(prog.clauses, lib...)
+			body := gc(",", gc("pick", x), b)
+			if order == 1 { // the goal is also called before the choice point, with the variable still unbound
+				body = conjOf([]*G{gc(`\+`, gc(`\+`, b)), gc("pick", x), b})
+			}
+			prog.clauses = append(prog.clauses, renumber(gc(":-", gc("p", g, x), body)))
+			goal := gc("q", gv(0))
+			if bi == 2 {
+				goal = gc("r", gv(0)) // closure completed by call/N
+			}
+			prog.query = gc("p", goal, gv(0))
+			prog.nq = 1
+			out = append(out, &progCase{prog: prog, note: "meta-call"})
+		}
+	}
+	return out
+}
+
+// ---- an open retract/1 whose predicate is abolished and created again (C09) ---------------------
+// d0/1 has k clauses; while retract(d0(X)) is open, at its i-th answer the predicate is
+// abolished (or emptied by retractall) and then given new clauses; the retract's remaining
+// answers, and the listing, are observed.
+
+func openRetractPrograms() []*progCase {
+	var out []*progCase
+	for k := 2; k <= 4; k++ {
+		for i := 1; i <= k; i++ {
+			for shape := 0; shape < 4; shape++ {
+				prog := &program{}
+				for c := 1; c <= k; c++ {
+					prog.clauses = append(prog.clauses, gc("d0", gi(int64(c))))
+				}
+				prog.clauses = append(prog.clauses, gc("d1", gi(0), gi(0)))
+				var upd []*G
+				switch shape {
+				case 0:
+					upd = []*G{gc("abolish", gc("/", ga("d0"), gi(1))), gc("assertz", gc("d0", gv(0)))}
+				case 1:
+					upd = []*G{gc("abolish", gc("/", ga("d0"), gi(1))), gc("assertz", gc("d0", gi(8))), gc("assertz", gc("d0", gi(9)))}
+				case 2:
+					upd = []*G{gc("retractall", gc("d0", gv(-1))), gc("assertz", gc("d0", gv(0)))}
+				default:
+					upd = []*G{gc("abolish", gc("/", ga("d0"), gi(1))), gc("asserta", gc("d0", gi(9))), gc("asserta", gc("d0", gv(0)))}
+				}
+				open := conjOf([]*G{gc("retract", gc("d0", gv(0))), gc("assertz", gc("d1", ga("seen"), gv(0))),
+					gc(";", gc("->", gc("=:=", gv(0), gi(int64(i))), conjOf(upd)), ga("true"))})
+				prog.query = conjOf([]*G{
+					gc("findall", gv(0), open, gv(1)),
+					gc("findall", gv(4), gc("d0", gv(4)), gv(2)),
+					gc("findall", gv(4), gc("d1", ga("seen"), gv(4)), gv(3)),
+				})
+				prog.nq = 5
+				out = append(out, &progCase{prog: prog, dynamic: true, note: "open-retract"})
+			}
+		}
+	}
+	return out
+}
+
+// ---- an exited catch/3 followed by a goal that cuts, then an error (C04) ---------------------
+// catch/3 whose goal has exited (deterministically, or leaving a choice point), then a goal
+// that executes a cut of its own (a user predicate with a cut, once/1, if-then-else, call((G,!)),
+// \+), then an error: the exited catch must stay inactive, an outer one takes the ball.
+
+func exitedThenCutPrograms() []*progCase {
+	x, y := gv(0), gv(1)
+	two := glist([]*G{gi(1), gi(2)}, nil)
+	// the recovery of the exited catch has a visible effect if it is ever run: it fails, or throws another ball
+	// (a recovery that only binds a variable and lets the continuation raise again ends like the right run)
+	var exits []*G
+	for _, rec := range []*G{ga("fail"), gc("throw", ga("intercepted"))} {
+		exits = append(exits,
+			gc("catch", ga("true"), gv(-1), rec),
+			gc("catch", gc("member", x, two), gv(-1), rec),
+			gc("catch", gc("catch", ga("true"), gv(-1), ga("true")), gv(-1), rec))
+	}
+	cutters := []*G{
+		ga("ok"),
+		gc("once", gc("member", gv(-1), two)),
+		gc(";", gc("->", ga("true"), ga("true")), ga("fail")),
+		gc("call", gc(",", gc("member", gv(-1), two), ga("!"))),
+		gc(`\+`, ga("fail")),
+		gc("okn", gv(2)),
+	}
+	raises := []*G{gc("throw", ga("ball"))}
+	var out []*progCase
+	for _, e := range exits {
+		for _, c := range cutters {
+			for ri, r := range raises {
+				for ctx := 0; ctx < 2; ctx++ {
+					prog := &program{}
+					prog.clauses = append(prog.clauses, gc(":-", ga("ok"), ga("!")), ga("ok"),
+						gc(":-", gc("okn", gv(0)), gc(",", gc("member", gv(0), two), ga("!"))))
+					body := conjOf([]*G{e, c, r})
+					var q *G
+					if ctx == 0 {
+						q = gc("catch", body, gv(3), gc("=", y, ga("outer")))
+					} else {
+						prog.clauses = append(prog.clauses, renumber(gc(":-", gc("run", x, y), body)))
+						q = gc("catch", gc("run", x, y), gv(3), gc("=", y, ga("outer")))
+					}
+					_ = ri
+					prog.query = q
+					prog.nq = 4
+					out = append(out, &progCase{prog: prog, note: "exited-then-cut"})
+				}
+			}
+		}
+	}
+	return out
+}
